@@ -15,3 +15,4 @@ def check(ctx, prog):
     process.rule_liveness(ctx, prog)  # scope: no join of a worker that may still be writing (the call returns once every worker has finished)
     dispatch.rule_dispatch(ctx, prog)  # scope: the function addresses are taken per call in the process that uses them
     search.rule_resume(ctx, prog)  # scope: a worker delivers every solution of its part exactly once
+    dispatch.rule_global_state(ctx, prog)  # scope: no state shared between the solvers of the parts
